@@ -217,6 +217,12 @@ func init() {
 		},
 	})
 	registerSem(semSpec{
+		ID: "C17", Module: "GenCompose", CheckLog: false,
+		Quick:    []semRun{{Cfg: "GenCompose.quick.cfg", Workers: 8}, {Cfg: "GenCompose.quick2.cfg", Workers: 8}},
+		Thorough: []semRun{{Cfg: "GenCompose.thorough.cfg", Workers: 12}},
+		Rule: "GenCompose.tla: bodies of up to MaxItems items (literal text with markup and quotes, the passed data, a caller's variable, loop, condition, trusted HTML, a nested partial, a let that rebinds the data name) x 17 composition mechanisms (partial plain / .js / .html / without data, one and two levels of layout, layout under javascript, nested partial, contentFor+contentOf once / twice with different data / redefined, contentOf default block for an undefined name, undefined name without default (error), defined name with an unused default, block helper with caller's / own context, block helper returning string) x content type {unset, html, javascript}. TLC checks InlineTheorem (composed = inline where no layout / JS escaping / re-escaping is involved) and FrameTheorem on the reference semantics. Real plush must render the model's output (JS escaping per character as template.JSEscapeString) for the composed AND the inlined source. distinct_nontrivial = distinct (mechanism, content type, body) shapes.",
+	})
+	registerSem(semSpec{
 		ID: "C05", Module: "GenFaults", CheckLog: true,
 		Quick:    []semRun{{Cfg: "GenFaults.quick.cfg", Workers: 8}},
 		Thorough: []semRun{{Cfg: "GenFaults.thorough.cfg", Workers: 12}},
